@@ -545,7 +545,26 @@ class Unit:
             if n < 1 or n > len(lps):
                 raise GenError('%s: loop %d not found (%d loops)' % (spec, n, len(lps)))
             inserts.append((lps[n - 1][1], self.contract_segs(fid, text, 'loop%d.' % n, props)))
+        # N9: name the for-loop iterator (`in X` -> `in it: X`) so invariants can mention it (ghost only)
+        for n, nm in block.get('iters', {}).items():
+            kw, br = lps[n - 1]
+            mm = re.compile(r'\bin\b').search(bm, kw, br)
+            if not mm or not bm.startswith('for', kw):
+                raise GenError('%s: loop %d is not a for-loop' % (spec, n))
+            inserts.append((mm.end(), [Seg(' %s:' % nm, fn=fid, kind='ghost')]))
+            self.log.append({'rule': 'N9', 'where': where, 'before': 'for .. in <expr>', 'after': 'for .. in %s: <expr>' % nm})
         acount = 0
+        for (n, pos_kind, text) in block.get('loop_ats', []):
+            if n < 1 or n > len(lps):
+                raise GenError('%s: loop %d not found' % (spec, n))
+            close = rs.match_close(bm, lps[n - 1][1])
+            pos = close if pos_kind == 'end' else close + 1
+            acount += 1
+            oid = '%s/%s/assert#%d' % (self.name, fid, acount)
+            has_assert = re.search(r'\bassert\b', rs.mask(text)) is not None
+            if has_assert:
+                self.obligations[oid] = {'props': props, 'kind': 'assert', 'fn': fid, 'text': ' '.join(text.split())[:300]}
+            inserts.append((pos, [Seg('\n' + text + '\n', fn=fid, clause=(oid if has_assert else None), kind='ghost')]))
         for (n, needle, side, text) in block.get('ats', []):
             pos = _nth(body, needle, n, spec)
             if side == 'after':
@@ -633,7 +652,7 @@ class Unit:
                 cur_impl = None
             elif cmd == '@fn':
                 spec = arg
-                block = {'contract': '', 'loops': {}, 'ats': [], 'havocs': []}
+                block = {'contract': '', 'loops': {}, 'ats': [], 'havocs': [], 'iters': {}, 'loop_ats': []}
                 mm = re.search(r'\s+props=(\S+)$', spec)
                 if mm:
                     block['props'] = mm.group(1).split(',')
@@ -654,6 +673,8 @@ class Unit:
                         block['loops'][target[1]] = t
                     elif target[0] == 'at':
                         block['ats'].append((target[1], target[2], target[3], t))
+                    elif target[0] == 'at-loop':
+                        block['loop_ats'].append((target[1], target[2], t))
                 while True:
                     if i >= n:
                         raise GenError('@fn %s not closed by @end' % spec)
@@ -662,9 +683,16 @@ class Unit:
                     if l2.startswith('@end') and l2.strip() == '@end':
                         close_target()
                         break
-                    if l2.startswith('@loop'):
+                    if l2.startswith('@loop-end') or l2.startswith('@loop-after'):
                         close_target()
-                        target = ('loop', int(l2.split()[1]))
+                        target = ('at-loop', int(l2.split()[1]), 'end' if l2.startswith('@loop-end') else 'after')
+                    elif l2.startswith('@loop'):
+                        close_target()
+                        parts = l2.split()
+                        target = ('loop', int(parts[1]))
+                        for extra in parts[2:]:
+                            if extra.startswith('iter='):
+                                block['iters'][int(parts[1])] = extra[5:]
                     elif l2.startswith('@at'):
                         close_target()
                         mm = re.match(r'@at\s+(\d+)\s+"(.*)"\s+(before|after)\s*$', l2)
